@@ -76,6 +76,7 @@ def scan_trusted(text):
 
 ERR_RE = re.compile(r"^(error|warning)(\[[A-Z0-9]+\])?: (.*)$")
 LOC_RE = re.compile(r"^\s*--> ([^:]+):(\d+):(\d+)")
+LOC2_RE = re.compile(r"^\s*::: ([^:]+):(\d+):(\d+)")
 NUM_RE = re.compile(r"^\s*(\d+) \|")
 
 
@@ -94,9 +95,20 @@ def parse_stderr(text):
             continue
         if cur is not None:
             cur["text"].append(line)
-            m = LOC_RE.match(line)
-            if m and cur["line"] is None:
-                cur["line"] = int(m.group(2))
+            m = LOC_RE.match(line) or LOC2_RE.match(line)
+            if m:
+                # snippets may come from other files (vstd's std_specs for a std precondition): line
+                # numbers are only meaningful for the generated unit file, the file of the first location
+                cur["_curfile"] = m.group(1).strip()
+                if cur["line"] is None:
+                    cur["line"] = int(m.group(2))
+                    cur["file"] = cur["_curfile"]
+            if cur.get("file") is not None and cur.get("_curfile") != cur.get("file"):
+                # the clause that failed lives in vstd's specification of a std function
+                # (`Option::expect`, `unwrap`, indexing ...): a call that may panic
+                if "failed precondition" in line:
+                    cur["foreign_clause"] = True
+                continue
             # a failed postcondition is reported AT the clause (which may sit in a trait
             # declaration); the function that failed it is the secondary span
             m = NUM_RE.match(line)
@@ -192,7 +204,8 @@ def analyse(unit, path, report, res):
         it = item_for_line(report, e.get("fn_line") or e["line"]) or item_for_line(report, e["line"])
         tag_line = e.get("clause_line") or e["line"]
         low = e["msg"].lower()
-        safety = any(k in low for k in ("overflow", "underflow", "out of bounds", "division by zero", "divide by zero", "shift"))
+        safety = any(k in low for k in ("overflow", "underflow", "out of bounds", "division by zero", "divide by zero", "shift")) \
+            or (low.startswith("precondition not satisfied") and bool(e.get("foreign_clause")))
         rec = {"label": it["label"] if it else None, "props": (it.get("props") if it else None), "msg": e["msg"], "text": e["text"], "line": e["line"], "tags": clause_tags(gen_lines, tag_line)[0], "composite": clause_tags(gen_lines, tag_line)[1], "safety": safety}
         if "rlimit" in e["msg"].lower() or "resource limit" in e["msg"].lower():
             rlimited.append(rec)
